@@ -1,4 +1,7 @@
 import ChfVerif.Lemmas.ChargingSids
+import ChfVerif.Lemmas.ChargingRecords
+import ChfVerif.Lemmas.LockDiscipline
+import ChfVerif.Gen.LockSites
 /-
   C10 — charging-session references are unique and keep designating their session.
 
@@ -71,5 +74,33 @@ theorem C10_counter_monotone (guard : SplitGuard) (s : State) (op : Op) :
   rcases step_sids guard s op with ⟨_, h2⟩ | ⟨_, _, _, _, hle, _⟩
   · omega
   · exact hle
+
+/-! ### the sequence number of a refused create is not handed back -/
+
+/-- a session-based create that OpenCDR refuses (400) has used up its sequence number: the counter does not go back.
+    (Another create may have taken the next number in the meantime; see `C10_give_back_collides`.) -/
+theorem C10_refused_create_keeps_number (guard : SplitGuard) (s : State) (r : Req) (nf : Bytes) (hnf : r.nf = some nf)
+    (hp : supiAccepted r.supi = true) (hb : r.bad = true) (hone : r.one = false) :
+    (step guard s (.create r)).2.status = 400 ∧ (step guard s (.create r)).1.sessionSeq = s.sessionSeq + 1 := by
+  show (create s r).2.status = 400 ∧ (create s r).1.sessionSeq = s.sessionSeq + 1
+  rw [create_bad s r nf hnf hp hb]
+  simp [hone]
+
+/-- regenerated fact (harness/cmd/stateaccess.go, `decide`): the only statements of the request path that change a global
+    sequence counter are `atomic.AddUint64(&c, 1)` and `c++` - no decrement, no store, no other delta -/
+theorem counters_only_increase :
+    Chf.Gen.counterSites.all (fun c => decide (c.kind ≤ 1)) = true ∧
+    Chf.Gen.counterSites.any (fun c => c.field == "ChargingSessionSequence") = true := by decide
+
+/-- C10 (creates in flight together): whatever the order in which concurrent creates take their numbers, as long as no
+    number is ever handed back, no number - hence no reference - is handed out twice -/
+theorem C10_numbers_distinct_every_interleaving (evs : List Chf.LockDiscipline.CEv)
+    (h : evs.all (· == .take) = true) : ((({} : Chf.LockDiscipline.CSt).run evs).taken).Nodup :=
+  (Chf.LockDiscipline.counter_run evs h {} (by intro n hn; simp at hn) (by simp)).2
+
+/-- … and handing back is what breaks it: create X takes 0, create B (another subscriber) takes 1, X is refused and hands
+    its number back, create C takes 1 again - B's and C's references collide -/
+theorem C10_give_back_collides :
+    ¬ ((({} : Chf.LockDiscipline.CSt).run [.take, .take, .giveBack, .take]).taken).Nodup := by decide
 
 end Chf.Props.C10
